@@ -124,7 +124,13 @@ static void stub_reset(void) {
   wake_calls = 0; wake_total = 0; yields = 0;
 }
 
+/* a blocking call that is EXPECTED to block (wide-state checks): the wait stub jumps back instead of failing */
+#include <setjmp.h>
+static jmp_buf block_jmp;
+static int expect_block;
+#define BLOCKS(call) (expect_block = 1, setjmp(block_jmp) ? (expect_block = 0, 1) : ((void)(call), expect_block = 0, 0))
 static void would_block(const char* fn) {
+  if (expect_block) longjmp(block_jmp, 1);
   failf("would block in %s", fn);
   emit_and_exit();
 }
@@ -146,9 +152,17 @@ int fiber_manager_wake_from_mpsc_queue(fiber_manager_t* m, mpsc_fifo_t* f, int c
   if (count > 0) { wake_calls++; wake_total += count; }
   return 0;
 }
+/* patience checks: the queue looks empty for the first mpmc_empty_budget single-attempt calls (count 0), then yields one
+ * waiter - the announced waiter that was slow to enqueue */
+static long mpmc_empty_budget = -1, mpmc_calls;
 int fiber_manager_wake_from_mpmc_queue(fiber_manager_t* m, mpmc_fifo_t* f, int count) {
   (void)m; (void)f;
   if (count > 0) { wake_calls++; wake_total += count; }
+  if (count == 0 && mpmc_empty_budget >= 0) {
+    mpmc_calls++;
+    if (mpmc_empty_budget == 0) return 1;
+    mpmc_empty_budget--;
+  }
   return 0;
 }
 hazard_pointer_thread_record_t* fiber_manager_get_hazard_record(fiber_manager_t* m) {
@@ -206,6 +220,9 @@ static void t_fiber_mutex(void) {
       fiber_mutex_unlock(m);
       CHECK(wake_calls == 1 && wake_total == 1, "unlock of a mutex with %ld announced waiters woke %lld fiber(s) in %d call(s)",
             n, wake_total, wake_calls);
+      m->counter = -n;
+      CHECK(BLOCKS(fiber_mutex_lock(m)), "lock returned without waiting on a mutex held with %ld announced waiters", n);
+      CHECK(m->counter == -n - 1, "lock waiting behind %ld announced waiters left the counter at %d", n, (int)m->counter);
     }
     m->counter = 1; wake_calls = 0; wake_total = 0; yields = 0;
   }
@@ -270,6 +287,26 @@ static void t_fiber_semaphore(void) {
   sem_fields(s, 0);
   CHECK(fiber_semaphore_trywait(s) == FIBER_ERROR, "trywait succeeded on a semaphore of value 0");
   fiber_semaphore_destroy(s);
+  /* patience: counter = -1 with an empty queue is the reachable state "one waiter has announced itself and is not yet
+   * enqueued" (coq: sem_counter_inv, sem_no_lost_post).  The post must keep looking until that waiter appears, however
+   * long it takes (here: up to 2^22 empty looks); a post that gives up and returns would leave the waiter asleep with
+   * the unit gone. */
+  {
+    static const long KS[] = {0, 1, 1000, 70000, (1L << 20) + 5, (1L << 22) + 5};
+    for (unsigned k = 0; k < sizeof KS / sizeof KS[0] && !nfail; k++) {
+      memset(s, DIRTY, sizeof *s);
+      REQUIRE(fiber_semaphore_init(s, 0) == FIBER_SUCCESS, "init(0) did not return FIBER_SUCCESS");
+      s->counter = -1;
+      mpmc_empty_budget = KS[k]; mpmc_calls = 0; yields = 0;
+      fiber_semaphore_post(s);
+      CHECK(mpmc_calls == KS[k] + 1, "post with one announced, not yet enqueued waiter returned after %ld looks at the waiter "
+            "queue; the waiter appears at look %ld (it would enqueue and sleep forever, the unit is gone)", mpmc_calls, KS[k] + 1);
+      CHECK(fiber_semaphore_getvalue(s) == 0 && s->counter == 0, "after handing the unit to the late waiter the counter is %d",
+            (int)s->counter);
+      mpmc_empty_budget = -1;
+      fiber_semaphore_destroy(s);
+    }
+  }
   /* wide states: "for all initial values >= 0"; values around the powers of two at which a narrower counter wraps */
   {
     static const int VS[] = {127, 128, 255, 256, 32767, 32768, 65535, 65536, 2147483646};
@@ -318,6 +355,51 @@ static void t_fiber_rwlock(void) {
   fiber_rwlock_wrunlock(l);
   CHECK(fiber_rwlock_rdlock(l) == FIBER_SUCCESS && l->state.state.reader_count == 1, "uncontended rdlock");
   fiber_rwlock_rdunlock(l);
+  /* wide states: (no writer, n readers, nobody waiting) and (writer, no readers, n waiting readers / writers) are
+   * reachable for every n below the documented 2^21 participants (coq: rw_word_inv); n is chosen around the powers of
+   * two inside the 21-bit fields.  Only the non-blocking operations are exercised. */
+  {
+    static const unsigned NS[] = {1, 2, 3, 127, 128, 255, 256, 65535, 65536, (1u << 19), (1u << 20) - 1, (1u << 20),
+                                  (1u << 20) + 1, (1u << 21) - 3, (1u << 21) - 2};
+    for (unsigned k = 0; k < sizeof NS / sizeof NS[0] && !nfail; k++) {
+      unsigned n = NS[k];
+      l->state.blob = 0; l->state.state.reader_count = n;
+      CHECK(fiber_rwlock_trywrlock(l) == FIBER_ERROR, "trywrlock succeeded while %u readers hold the lock", n);
+      CHECK(!l->state.state.write_locked && l->state.state.reader_count == n && !l->state.state.waiting_readers &&
+            !l->state.state.waiting_writers, "failed trywrlock with %u readers changed the word to %llx", n,
+            (unsigned long long)l->state.blob);
+      l->state.blob = 0; l->state.state.reader_count = n;
+      CHECK(fiber_rwlock_tryrdlock(l) == FIBER_SUCCESS && l->state.state.reader_count == n + 1 && !l->state.state.write_locked,
+            "tryrdlock with %u readers: word now %llx", n, (unsigned long long)l->state.blob);
+      wake_calls = 0;
+      fiber_rwlock_rdunlock(l);
+      CHECK(l->state.state.reader_count == n && !l->state.state.write_locked && !wake_calls,
+            "rdunlock from %u readers: word now %llx, wake calls %d", n + 1, (unsigned long long)l->state.blob, wake_calls);
+      for (int which = 0; which < 2; which++) {
+        l->state.blob = 0; l->state.state.write_locked = 1;
+        if (which) l->state.state.waiting_writers = n; else l->state.state.waiting_readers = n;
+        const uint64_t before = l->state.blob;
+        CHECK(fiber_rwlock_tryrdlock(l) == FIBER_ERROR && l->state.blob == before,
+              "tryrdlock on a write-locked lock with %u waiting %s: word %llx -> %llx", n, which ? "writers" : "readers",
+              (unsigned long long)before, (unsigned long long)l->state.blob);
+        CHECK(fiber_rwlock_trywrlock(l) == FIBER_ERROR && l->state.blob == before,
+              "trywrlock on a write-locked lock with %u waiting %s: word %llx -> %llx", n, which ? "writers" : "readers",
+              (unsigned long long)before, (unsigned long long)l->state.blob);
+      }
+      /* the blocking calls must decide to wait (and announce themselves) in these states */
+      l->state.blob = 0; l->state.state.reader_count = n;
+      CHECK(BLOCKS(fiber_rwlock_wrlock(l)), "wrlock returned without waiting while %u readers hold the lock", n);
+      CHECK(!l->state.state.write_locked && l->state.state.reader_count == n && l->state.state.waiting_writers == 1,
+            "wrlock waiting behind %u readers left the word %llx", n, (unsigned long long)l->state.blob);
+      if (n < (1u << 21) - 2) {
+        l->state.blob = 0; l->state.state.write_locked = 1; l->state.state.waiting_readers = n;
+        CHECK(BLOCKS(fiber_rwlock_rdlock(l)), "rdlock returned without waiting on a write-locked lock (%u waiting readers)", n);
+        CHECK(l->state.state.write_locked && !l->state.state.reader_count && l->state.state.waiting_readers == n + 1,
+              "rdlock waiting behind a writer and %u readers left the word %llx", n, (unsigned long long)l->state.blob);
+      }
+    }
+    l->state.blob = 0; wake_calls = 0;
+  }
   fiber_rwlock_destroy(l);
   free(l);
 }
